@@ -28,8 +28,9 @@ Transcribed from /repo/menpo/model/gmrf.py, branch for branch:
                                                                `meanObj`, `queryMatrix`
 * `GMRFVectorModel._data_to_matrix` (`n_samples`)            → `dataToMatrix`, `buildFrom`
 
-The statement order / operators of the loops are re-read from the live source on every run and compared
-with `Core/C12Table.lean` (`modelDenseTable`, `modelTripTable`, `modelIndptr…`, `ctorOf`).
+The routines themselves are TRANSLATED from the live source text on every run (`harness/trans_c12.py` →
+`Generated/C12Src.lean`) and proved equal to the statement-for-statement definitions of `Core/C12Src.lean`
+(`GenProps/C12Src.lean`), which `Lemmas/C12Src*.lean` prove equal to the definitions of this file.
 
 In-place slice assignment is value passing: an update returns the new table.
 -/
